@@ -5,7 +5,7 @@ CONSTANTS
   Topics = {1}
   MaxTime = 3
   Dues = {0, 2}
-  Ttls = {0}
+  Ttls = {0, 1}
   MaxTag = 3
   ConsCfg <- CfgN1
 
